@@ -474,6 +474,25 @@ func ruleMargin(c *Ctx) {
 	} else {
 		fi := c.info(grow)
 		name := fnName(grow)
+		ro := c.roles()
+		// bsOf: the terms standing for BufferSize in f; capOf: is v the capacity of the buffer's data in f
+		bsOf := func(f *FuncInfo, fn *ssa.Function) []Lin {
+			if fn == grow && ro.growBS >= 0 {
+				return []Lin{f.lin(grow.Params[ro.growBS])}
+			}
+			var r []Lin
+			for _, bs := range f.atomsWithSuffix(".BufferSize") {
+				r = append(r, linAtom(bs))
+			}
+			return r
+		}
+		isData := func(fn *ssa.Function, v ssa.Value) bool {
+			if fn == grow && ro.growData >= 0 {
+				return v == ssa.Value(grow.Params[ro.growData])
+			}
+			f := loadedField(v)
+			return f != nil && f.Name() == "Data"
+		}
 		var mk *ssa.MakeSlice
 		for _, b := range grow.Blocks {
 			for _, in := range b.Instrs {
@@ -485,11 +504,11 @@ func ruleMargin(c *Ctx) {
 		if mk == nil {
 			c.fail(name+":alloc", grow.Pos(), "no allocation in grow")
 		} else {
-			t := fi.lin(grow.Params[1])
+			t := fi.lin(grow.Params[ro.growT])
 			// hypothesis: t ≤ BufferSize (checked at the call sites below)
 			ok := false
-			for _, bs := range fi.atomsWithSuffix(".BufferSize") {
-				hyp := []Fact{{t.sub(linAtom(bs)), LE}, {t.scale(-1), LE}}
+			for _, bs := range bsOf(fi, grow) {
+				hyp := []Fact{{t.sub(bs), LE}, {t.scale(-1), LE}}
 				if fi.proveAt(t.addc(7).sub(fi.lin(mk.Cap)), mk.Block(), hyp) {
 					ok = true
 				}
@@ -510,7 +529,7 @@ func ruleMargin(c *Ctx) {
 			for _, b := range grow.Blocks {
 				for _, in := range b.Instrs {
 					if cc := isBuiltinCall(in, "cap"); cc != nil {
-						if f := loadedField(cc.Call.Args[0]); f != nil && f.Name() == "Data" {
+						if isData(grow, cc.Call.Args[0]) {
 							caps = append(caps, fi.lin(cc))
 						}
 					}
@@ -518,10 +537,16 @@ func ruleMargin(c *Ctx) {
 			}
 			okR := true
 			for _, b := range grow.Blocks {
-				if _, isRet := b.Instrs[len(b.Instrs)-1].(*ssa.Return); !isRet {
+				ret, isRet := b.Instrs[len(b.Instrs)-1].(*ssa.Return)
+				if !isRet {
 					continue
 				}
 				if b == mk.Block() || mk.Block().Dominates(b) {
+					continue
+				}
+				if ro.growData >= 0 && !isData(grow, ret.Results[0]) {
+					// functional form: a return that does not allocate hands back the data it was given
+					okR = false
 					continue
 				}
 				proved := false
@@ -548,10 +573,10 @@ func ruleMargin(c *Ctx) {
 					}
 					n++
 					key := fmt.Sprintf("%s:grow-arg#%d", fnName(fn), n)
-					t := fi2.lin(call.Call.Args[1])
+					t := fi2.lin(call.Call.Args[ro.growT])
 					ok2 := false
-					for _, bs := range fi2.atomsWithSuffix(".BufferSize") {
-						if fi2.proveAt(t.sub(linAtom(bs)), b, nil) && fi2.proveAt(t.scale(-1), b, nil) {
+					for _, bs := range bsOf(fi2, fn) {
+						if fi2.proveAt(t.sub(bs), b, nil) && fi2.proveAt(t.scale(-1), b, nil) {
 							ok2 = true
 						}
 					}
@@ -564,7 +589,18 @@ func ruleMargin(c *Ctx) {
 					// of a guarded branch), or this very block (the call is unconditional here: nothing of this
 					// block can bypass it)
 					m := b
-					if len(b.Succs) == 1 && fi2.instrIx[call] == len(b.Instrs)-2 {
+					usedHere := false
+					for _, in2 := range b.Instrs[fi2.instrIx[call]+1:] {
+						if st, ok := in2.(*ssa.Store); ok && st.Val != ssa.Value(call) {
+							if f := fieldOfAddr(st.Addr); f != nil && f.Name() == "Data" {
+								usedHere = true
+							}
+						}
+						if sl, ok := in2.(*ssa.Slice); ok && isData(fn, sl.X) {
+							usedHere = true
+						}
+					}
+					if len(b.Succs) == 1 && !usedHere {
 						m = b.Succs[0]
 					}
 					var caps []Lin
@@ -612,7 +648,7 @@ func ruleMargin(c *Ctx) {
 							if b3 == b && fi2.instrIx[st] < fi2.instrIx[call] {
 								continue
 							}
-							if f := fieldOfAddr(st.Addr); f == nil || f.Name() != "Data" {
+							if f := fieldOfAddr(st.Addr); f == nil || f.Name() != "Data" || st.Val == ssa.Value(call) {
 								continue
 							}
 							if app := isBuiltinCall(valueInstr(st.Val), "append"); app != nil {
@@ -631,6 +667,7 @@ func ruleMargin(c *Ctx) {
 		fi := c.info(reset)
 		name := fnName(reset)
 		data := reset.Params[1]
+		nStores := 0
 		for _, b := range reset.Blocks {
 			for _, in := range b.Instrs {
 				st, ok := in.(*ssa.Store)
@@ -641,6 +678,27 @@ func ruleMargin(c *Ctx) {
 					continue
 				}
 				if st.Val != data {
+					// any other non-empty slice installed by Reset carries the margin as well: a fresh slice by its
+					// capacity argument, a re-slice of the old buffer by a guard on its capacity
+					var capL Lin
+					switch x := st.Val.(type) {
+					case *ssa.MakeSlice:
+						capL = fi.lin(x.Cap)
+					case *ssa.Slice:
+						if x.High == nil || isConstZero(x.High) || x.Low != nil || x.Max != nil {
+							continue
+						}
+						if cc := capCallOn(reset, x.X); cc != nil {
+							capL = fi.lin(cc)
+						} else {
+							capL = linAtom("cap(" + fi.key(x.X) + ")")
+						}
+					default:
+						continue
+					}
+					nStores++
+					ok3 := fi.proveAt(fi.lenOf(st.Val).addc(7).sub(capL), b, nil)
+					c.check(ok3, fmt.Sprintf("%s:margin#%d", name, nStores), st.Pos(), "the slice installed by Reset has capacity ≥ len + 7", "Reset installs a slice of length "+fi.lenOf(st.Val).String()+" whose capacity ("+capL.String()+") is not shown to leave the 7-byte margin: the 8-byte loads of the hash parsers slice beyond the capacity")
 					continue
 				}
 				ok2 := fi.proveAt(fi.lenOf(data).addc(7).sub(linAtom("cap("+data.Name()+")")), b, nil)
@@ -1104,4 +1162,18 @@ func nilOrValue(ph *ssa.Phi, v ssa.Value, seen map[*ssa.Phi]bool) bool {
 func valueInstr(v ssa.Value) ssa.Instruction {
 	in, _ := v.(ssa.Instruction)
 	return in
+}
+
+// capCallOn: a cap(x) call in fn on the same loaded field as v (its value stands for cap(v)).
+func capCallOn(fn *ssa.Function, v ssa.Value) *ssa.Call {
+	for _, b := range fn.Blocks {
+		for _, in := range b.Instrs {
+			if cc := isBuiltinCall(in, "cap"); cc != nil {
+				if cc.Call.Args[0] == v || sameLoadPath(cc.Call.Args[0], v) {
+					return cc
+				}
+			}
+		}
+	}
+	return nil
 }
